@@ -197,10 +197,13 @@ def computeLow (v : Vtf) (frames : List (Key × FrameM)) (filt : Nat) : Except E
   else pure v.low
 
 /-- `VTF.compute_mipmaps(filter)` as a state change. -/
-def applyCompute (v : Vtf) (filt : Nat) : Except Err Vtf := do
-  let frames ← computeMips v filt
-  let low ← computeLow v frames filt
-  pure { v with frames, low }
+def applyCompute (v : Vtf) (filt : Nat) : Except Err Vtf :=
+  match computeMips v filt with
+  | .error e => .error e
+  | .ok frames =>
+    match computeLow v frames filt with
+    | .error e => .error e
+    | .ok low => .ok { v with frames, low }
 
 /-- `Frame.clear()`. -/
 def FrameM.clear (fr : FrameM) : FrameM := { fr with data := none, fileData := none }
@@ -323,23 +326,35 @@ def frameFor (v : Vtf) (k : Key) : Except Err FrameM :=
       pure ⟨max (v.width >>> k.2.2) 1, max (v.height >>> k.2.2) 1, none, none⟩
     else throw .key
 
+/-- load and encode the frame written for key `k`. -/
+def encodeKey (v : Vtf) (k : Key) : Except Err (List Nat) :=
+  match frameFor v k with
+  | .error e => .error e
+  | .ok fr => encodeFrame v.fmt fr.load
+
+/-- load and encode the thumbnail (nothing when its format is NONE). -/
+def encodeLow (v : Vtf) : Except Err (List Nat) :=
+  if v.lowFmt ≠ fmtNone then encodeFrame v.lowFmt v.low.load else .ok []
+
 /-- The part of `VTF.save` after `compute_mipmaps()`: load and encode the thumbnail and every frame
 of the version being written, and lay the file out. -/
-def assemble (v : Vtf) (minor sheetVer : Nat) (asw : Bool) : Except Err (List Nat) := do
-  let lowBytes ← (if v.lowFmt ≠ fmtNone then encodeFrame v.lowFmt v.low.load else pure [])
-  let blocks ← (fileKeys v.mipCount v.frameCount (depthSeq v.flags minor v.depth)).mapM fun k => do
-    let fr ← frameFor v k
-    encodeFrame v.fmt fr.load
-  pure (fileBytes v minor sheetVer asw lowBytes blocks)
+def assemble (v : Vtf) (minor sheetVer : Nat) (asw : Bool) : Except Err (List Nat) :=
+  match encodeLow v with
+  | .error e => .error e
+  | .ok lowBytes =>
+    match (fileKeys v.mipCount v.frameCount (depthSeq v.flags minor v.depth)).mapM (encodeKey v) with
+    | .error e => .error e
+    | .ok blocks => .ok (fileBytes v minor sheetVer asw lowBytes blocks)
 
 /-- `VTF.save(file, version=(7, minor), sheet_seq_version, asw_or_later)`: the bytes written. -/
 def saveFile (v : Vtf) (minor sheetVer : Nat) (asw : Bool) : Except Err (List Nat) :=
-  if minor > 5 then throw .version
-  else if minor < 2 ∧ v.depth > 1 then throw .depthVersion
-  else if minor ≥ 3 ∧ hasSheetRes v ∧ sheetVer > 1 then throw .sheetVersion
-  else do
-    let v' ← applyCompute v 4      -- `self.compute_mipmaps()` with the default (bilinear) filter
-    assemble v' minor sheetVer asw
+  if minor > 5 then .error .version
+  else if minor < 2 ∧ v.depth > 1 then .error .depthVersion
+  else if minor ≥ 3 ∧ hasSheetRes v ∧ sheetVer > 1 then .error .sheetVersion
+  else
+    match applyCompute v 4 with      -- `self.compute_mipmaps()` with the default (bilinear) filter
+    | .error e => .error e
+    | .ok v' => assemble v' minor sheetVer asw
 
 /-! ## Reading -/
 
